@@ -127,6 +127,10 @@ def f1(ctx, rep):
             rep.fail('F1', key, f"config.{path} is overridden only under an additional condition (`{vt.show(extra[0].get('c'))[:80]}`): the command-line value is dropped when that condition is false (e.g. when writing a config with -g), so CLI and generated file disagree", site)
             continue
         rep.check(ok_guard and src_opt == want_opt and from_payload, 'F1', key, f'config.{path} = --{want_opt} when given', f"config.{path} is assigned `{vt.show(value)[:60]}` under `{vt.show(frames[0].get('c'))[:80] if frames else 'no guard'}` — expected the value of options.{want_opt} exactly when it is Some", site)
+    if not (set(OVERRIDES.values()) & set(seen)):
+        # not one of the seven overrides is recognised: the step is written in a form the rule does not model (a table of
+        # (&mut setting, option) pairs applied in a loop, a macro …) — that is a limit of the rule, not seven dropped options
+        raise core.Incomplete(f"F1: {oc['qual']} applies none of the option overrides in a recognised form (`if let Some(x) = options.<opt> {{ config.<field> = x }}` or an equivalent per-option helper): the way the options reach the configuration is not modelled for this shape")
     for opt, path in OVERRIDES.items():
         rep.check(path in seen, 'F1', f'override-present:{path}', f'--{opt} wired', f'override_configuration never applies --{opt.replace("_", "-")} to config.{path}: the command-line value is ignored', {'file': oc['file'], 'line': oc['line']})
     t = [w for w in config_writes(oc, cfg) if w[0] == 'target_os']
